@@ -215,3 +215,153 @@ def attribute_obligations(prop, module="ford.sourceform", replay=None):
     if not out:
         out.append(OR(id=f"{prop}.S.casefold.attribs.anchor", status=UNKNOWN, kind="S", target=module, detail="no attribute membership test on another entity's attribs found"))
     return out
+
+
+def prefix_obligations(prop, module="ford.sourceform", replay=None):
+    """keyword tests written as `X.startswith(<keyword literal(s)>)` / `X.endswith(..)`: source text keeps its spelling, so X is case-folded - `X.lower().startswith(..)`, or
+    X is a local name whose textually last binding before the test is a case fold (`name = name.strip().lower()`).  Generated for every such call in the current source whose
+    literal holds a lower-case letter and only letters / blanks (a Fortran keyword, not a marker or a file extension)."""
+    _, tree = loader.module_source(module)
+    out = []
+    kw = lambda e: isinstance(e, ast.Constant) and isinstance(e.value, str) and any(ch.islower() for ch in e.value) and all(ch.isalpha() or ch == " " for ch in e.value)
+    for fn in [x for x in ast.walk(tree) if isinstance(x, (ast.FunctionDef, ast.AsyncFunctionDef))]:
+        inner = {id(n) for sub in ast.walk(fn) if sub is not fn and isinstance(sub, (ast.FunctionDef, ast.AsyncFunctionDef)) for n in ast.walk(sub)}
+        k = 0
+        for c in ast.walk(fn):
+            if id(c) in inner or not (isinstance(c, ast.Call) and isinstance(c.func, ast.Attribute) and c.func.attr in ("startswith", "endswith") and len(c.args) >= 1):
+                continue
+            lit = c.args[0]
+            if not (kw(lit) or (isinstance(lit, ast.Tuple) and lit.elts and all(kw(e) for e in lit.elts))):
+                continue
+            recv = c.func.value
+            ok = any(_is_fold_call(n) for n in ast.walk(recv))
+            if not ok and isinstance(recv, ast.Name):
+                binds = [(n.lineno, n.value) for n in ast.walk(fn) if isinstance(n, ast.Assign) and n.lineno < c.lineno and any(isinstance(t, ast.Name) and t.id == recv.id for t in n.targets)]
+                binds += [(n.lineno, n.value) for n in ast.walk(fn) if isinstance(n, ast.NamedExpr) and n.lineno <= c.lineno and n.target.id == recv.id]
+                if binds:
+                    last = max(binds, key=lambda b: b[0])[1]
+                    ok = any(_is_fold_call(n) for n in ast.walk(last))
+            r = OR(id=f"{prop}.S.casefold.prefix.{fn.name}.site{k}", status=PROVED if ok else REFUTED, kind="S", role="post", backend="ast", target=f"{module}.{fn.name}",
+                   desc=f"`{ast.unparse(c)[:90]}` (line {c.lineno}): the text is case-folded before its leading / trailing keyword is tested")
+            if not ok:
+                r.witness = {"test": ast.unparse(c), "line": c.lineno}
+                r.detail = "the tested text keeps the spelling of the source: an upper- or mixed-case keyword takes the other branch"
+                if replay:
+                    r.replay = replay()
+            out.append(r)
+            k += 1
+    if not out:
+        out.append(OR(id=f"{prop}.S.casefold.prefix.anchor", status=UNKNOWN, kind="S", target=module, detail="no keyword prefix test found (code restructured?)"))
+    return out
+
+
+def metadata_key_obligation(prop, replay=None):
+    """FortranBase.read_metadata decides whether the first line of a comment (`Word: ...`) is metadata by looking the word up among the EntitySettings field names.  Metadata
+    keys are case-insensitive (ford.utils.meta_preprocessor lower-cases them): the looked-up word is case-folded."""
+    oid = f"{prop}.S.casefold.read_metadata.key_lookup"
+    try:
+        fn = loader.find_def("ford.sourceform", "FortranBase.read_metadata")
+    except loader.TargetMissing as e:
+        return [OR(id=oid, status=UNKNOWN, kind="S", target="ford.sourceform.FortranBase.read_metadata", detail=str(e))]
+    names = {t.id for n in ast.walk(fn) if isinstance(n, ast.Assign) and "fields(" in ast.unparse(n.value) for t in n.targets if isinstance(t, ast.Name)}
+    sites = [c for c in ast.walk(fn) if isinstance(c, ast.Compare) and len(c.ops) == 1 and isinstance(c.ops[0], (ast.In, ast.NotIn))
+             and (("fields(" in ast.unparse(c.comparators[0])) or (isinstance(c.comparators[0], ast.Name) and c.comparators[0].id in names))]
+    if not sites:
+        return [OR(id=oid, status=UNKNOWN, kind="S", target="ford.sourceform.FortranBase.read_metadata", detail="no lookup among the EntitySettings field names found")]
+    out = []
+    for k, c in enumerate(sites):
+        ok = any(_is_fold_call(n) for n in ast.walk(c.left))
+        if not ok and isinstance(c.left, ast.Name):
+            binds = [n.value for n in ast.walk(fn) if isinstance(n, ast.Assign) and n.lineno < c.lineno and any(isinstance(t, ast.Name) and t.id == c.left.id for t in n.targets)]
+            ok = bool(binds) and any(_is_fold_call(n) for n in ast.walk(binds[-1]))
+        r = OR(id=f"{oid}.site{k}", status=PROVED if ok else REFUTED, kind="S", role="post", backend="ast", target="ford.sourceform.FortranBase.read_metadata",
+               desc=f"`{ast.unparse(c)[:80]}` (line {c.lineno}): the first word of the comment is case-folded before it is looked up among the metadata keys")
+        if not ok:
+            r.witness = {"comparison": ast.unparse(c), "line": c.lineno}
+            r.detail = "`Display: private` is taken for text: the override is dropped and the line is shown"
+            if replay:
+                r.replay = replay()
+        out.append(r)
+    return out
+
+
+NAME_TABLES = {"all_procs", "all_types", "all_vars", "all_absinterfaces", "pub_procs", "pub_types", "pub_vars", "pub_absints", "used_names", "attr_dict", "param_dict"}
+VALUE_IS_A_NAME = {"used_names"}        # tables whose values are names themselves (local name of a renamed entity): looked up as keys later
+
+
+def table_store_obligations(prop, module="ford.sourceform", replay=None):
+    """the name tables of a scope (all_procs / all_types / all_vars / all_absinterfaces, the pub_* tables of a module, used_names of a USE statement, attr_dict / param_dict of the
+    attribute statements) are keyed by lower-cased names - every lookup folds the name it looks for.  So every *store* `table[key] = ..` in the current source folds its key:
+    the key expression contains a case fold, or is a local name whose textually last binding before the store does (directly, or through slices / strip() of such a name).  For
+    used_names the stored value is a name as well (the local name after `=>`) and is folded too."""
+    _, tree = loader.module_source(module)
+    out = []
+    is_tab = lambda e: (isinstance(e, ast.Attribute) and e.attr in NAME_TABLES) or (isinstance(e, ast.Name) and e.id in NAME_TABLES)
+    tname = lambda e: e.attr if isinstance(e, ast.Attribute) else e.id
+
+    def folded(fn, e, line, depth=0):
+        if any(_is_fold_call(n) for n in ast.walk(e)):
+            return True
+        if isinstance(e, ast.Constant):
+            return True
+        if depth > 4:
+            return False
+        names = [n for n in ast.walk(e) if isinstance(n, ast.Name) and isinstance(n.ctx, ast.Load)]
+        # an expression over local names only (slices, strip, concatenation): every name it reads was last bound to folded text
+        if not names or any(isinstance(n, ast.Attribute) for n in ast.walk(e) if not (isinstance(n, ast.Attribute) and isinstance(getattr(n, "ctx", None), ast.Load) and n.attr in ("strip", "rstrip", "lstrip", "index", "replace", "sub"))):
+            return False
+        for nm in names:
+            binds = [(b.lineno, b.value) for b in ast.walk(fn) if isinstance(b, ast.Assign) and b.lineno < line and any(isinstance(t, ast.Name) and t.id == nm.id for t in b.targets)]
+            if not binds:
+                if nm.id in ("len", "str", "int", "re"):
+                    continue
+                return False
+            ln, val = max(binds, key=lambda b: b[0])
+            if not folded(fn, val, ln, depth + 1):
+                return False
+        return True
+    for fn in [x for x in ast.walk(tree) if isinstance(x, (ast.FunctionDef, ast.AsyncFunctionDef))]:
+        k = 0
+        for st in ast.walk(fn):
+            # table[key].append(..) (attr_dict: a list per name) and table.update({key: ..}) / table = {key: .. for ..} are stores as well
+            extra = []
+            if isinstance(st, ast.Expr) and isinstance(st.value, ast.Call) and isinstance(st.value.func, ast.Attribute):
+                f = st.value.func
+                if f.attr in ("append", "extend") and isinstance(f.value, ast.Subscript) and is_tab(f.value.value):
+                    extra.append((f.value.value, f.value.slice))
+                if f.attr == "update" and is_tab(f.value) and st.value.args and isinstance(st.value.args[0], (ast.DictComp, ast.Dict)):
+                    d = st.value.args[0]
+                    extra += [(f.value, d.key)] if isinstance(d, ast.DictComp) else [(f.value, kk) for kk in d.keys if kk is not None]
+            if isinstance(st, ast.Assign) and len(st.targets) == 1 and is_tab(st.targets[0]) and isinstance(st.value, ast.DictComp):
+                extra.append((st.targets[0], st.value.key))
+            for tab, key in extra:
+                ok = folded(fn, key, st.lineno + 1)
+                r = OR(id=f"{prop}.S.casefold.tables.{fn.name}.site{k}", status=PROVED if ok else REFUTED, kind="S", role="invariant", backend="ast", target=f"{module}.{fn.name}",
+                       desc=f"`{ast.unparse(st)[:90]}` (line {st.lineno}): the name written into the table `{tname(tab)}` is case-folded")
+                if not ok:
+                    r.witness = {"store": ast.unparse(st), "line": st.lineno}
+                    r.detail = "lookups fold the name they look for: an entry stored under a name that keeps the spelling of the source is never found"
+                    if replay:
+                        r.replay = replay()
+                out.append(r)
+                k += 1
+            if not isinstance(st, ast.Assign):
+                continue
+            for t in st.targets:
+                if not (isinstance(t, ast.Subscript) and is_tab(t.value)):
+                    continue
+                ok_key = folded(fn, t.slice, st.lineno + 1)
+                ok_val = tname(t.value) not in VALUE_IS_A_NAME or folded(fn, st.value, st.lineno + 1)
+                ok = ok_key and ok_val
+                r = OR(id=f"{prop}.S.casefold.tables.{fn.name}.site{k}", status=PROVED if ok else REFUTED, kind="S", role="invariant", backend="ast", target=f"{module}.{fn.name}",
+                       desc=f"`{ast.unparse(st)[:90]}` (line {st.lineno}): the name written into the table `{tname(t.value)}` is case-folded")
+                if not ok:
+                    r.witness = {"store": ast.unparse(st), "line": st.lineno, "key_folded": ok_key, "value_folded": ok_val}
+                    r.detail = "lookups fold the name they look for: an entry stored under a name that keeps the spelling of the source is never found"
+                    if replay:
+                        r.replay = replay()
+                out.append(r)
+                k += 1
+    if len(out) < 5:
+        out.append(OR(id=f"{prop}.S.casefold.tables.anchor", status=UNKNOWN, kind="S", target=module, detail=f"expected the stores into the name tables, found {len(out)}"))
+    return out
